@@ -514,6 +514,63 @@ int main(int argc, char **argv)
 		printf("fieldsdone %ld\n", checked);
 		return 0;
 	}
+	if (!strcmp(mode, "tails")) {
+		/* the file with its last 1..count bytes missing (every length down to `first`), as an exactly
+		 * sized heap image: optional trailing parts (texts, last sample, trailers) that cannot be
+		 * read completely while everything before them is intact; what a client reads afterwards
+		 * (comment, names, sample data) is touched before the release */
+		int i;
+		long L, checked = 0;
+		for (i = 0; i < nfiles; i++) {
+			long n = 0;
+			unsigned char *in = read_file(argv[6 + i], &n);
+			if (!in)
+				continue;
+			printf("tailsfile %s\n", argv[6 + i]);
+			fflush(stdout);
+			for (L = first; L <= count && L < n; L++) {
+				long keep = n - L;
+				unsigned char *exact = (unsigned char *)malloc(keep > 0 ? keep : 1);
+				struct xmp_test_info ti;
+				xmp_context c = xmp_create_context();
+				memcpy(exact, in, keep);
+				printf("tail %ld\n", L);
+				fflush(stdout);
+				alarm(60);
+				xmp_test_module_from_memory(exact, keep, &ti);
+				if (xmp_load_module_from_memory(c, exact, keep) == 0) {
+					struct xmp_module_info mi;
+					volatile unsigned long sink = 0;
+					int k;
+					xmp_get_module_info(c, &mi);
+					if (mi.comment)
+						sink += strlen(mi.comment);
+					sink += strlen(mi.mod->name) + strlen(mi.mod->type);
+					for (k = 0; k < mi.mod->smp; k++) {
+						struct xmp_sample *xs = &mi.mod->xxs[k];
+						if (xs->data && xs->len > 0) {
+							long bytes = (long)xs->len * ((xs->flg & XMP_SAMPLE_16BIT) ? 2 : 1);
+							sink += xs->data[0] + xs->data[bytes - 1];
+						}
+					}
+					if (xmp_start_player(c, 8000, 0) == 0) {
+						xmp_play_frame(c);
+						xmp_play_frame(c);
+						xmp_end_player(c);
+					}
+					xmp_release_module(c);
+					(void)sink;
+				}
+				alarm(0);
+				xmp_free_context(c);
+				free(exact);
+				checked++;
+			}
+			free(in);
+		}
+		printf("tailsdone %ld\n", checked);
+		return 0;
+	}
 	if (!strcmp(mode, "prefix")) {
 		/* every prefix length 0..count of every file, as an exactly sized heap image through
 		 * the memory and callback entry points of test and load: a read one byte past the
